@@ -470,7 +470,7 @@ fn zst_exits<ZT: Elem>(c: &mut Ctx, rng: &mut Rng) {
 
 /// A collection that was never given an element or a capacity owns no block at all.
 fn never_allocates(c: &mut Ctx, rng: &mut Rng) {
-    let spec = Spec::random(rng, crate::states::Recipe::Fresh);
+    let spec = Spec::exact(rng, crate::states::Recipe::Fresh);
     let a0 = ckalloc::counters();
     let mut m: MapC<T24, T24> = build(&spec);
     let _ = m.0.get(&KeyRef(1));
